@@ -31,13 +31,14 @@ var verifC10Series = []verifSeries{
 	{2, map[string]string{"host": "b", "zone": "x"}},
 	{65537, map[string]string{"host": "a"}},
 	{65538, map[string]string{"zone": "y"}},
+	{65539, map[string]string{"host": "a,b"}}, // a value that contains the separator of an in-list's text form
 }
 
 var verifC10Keys = tag.Metas{{Key: "host", ID: 1}, {Key: "zone", ID: 2}}
 
 // value ids per key
 var verifC10Values = map[string]map[string]uint32{
-	"host": {"a": 1, "b": 2},
+	"host": {"a": 1, "b": 2, "a,b": 3},
 	"zone": {"x": 1, "y": 2},
 }
 
@@ -97,9 +98,10 @@ func (verifIndexDB) GetSeriesIDsForTag(tagKeyID tag.KeyID) (*roaring.Bitmap, err
 // ---- condition trees and their literal evaluation
 
 type verifAtom struct {
-	key    string
-	values []string
-	negate bool
+	key     string
+	values  []string
+	negate  bool
+	forceIn bool // an in-list of one element
 }
 
 var verifC10Atoms = []verifAtom{
@@ -112,7 +114,7 @@ var verifC10Atoms = []verifAtom{
 
 func (a verifAtom) expr() stmt.Expr {
 	var e stmt.Expr
-	if len(a.values) == 1 {
+	if len(a.values) == 1 && !a.forceIn {
 		e = &stmt.EqualsExpr{Key: a.key, Value: a.values[0]}
 	} else {
 		e = &stmt.InExpr{Key: a.key, Values: a.values}
@@ -212,6 +214,37 @@ func verifC10Filter() {
 		}
 	}
 	verifAssert(int(got.GetCardinality()) == n, "nothing else is selected")
+	verifReach("end")
+}
+
+// two different atoms whose text forms coincide (host in ('a,b') and host in ('a','b')): each keeps
+// its own meaning inside one condition
+func verifC10FilterSameText() {
+	ops := []stmt.BinaryOP{stmt.AND, stmt.OR}
+	x := verifAtom{key: "host", values: []string{"a,b"}, forceIn: true}
+	y := verifAtom{key: "host", values: []string{"a", "b"}}
+	a, b := x, y
+	if verifChoose("order", 2) == 1 {
+		a, b = y, x
+	}
+	if verifChoose("notFirst", 2) == 1 {
+		a.negate = true
+	}
+	op := ops[verifChoose("op", 2)]
+	cond := &stmt.BinaryExpr{Left: a.expr(), Operator: op, Right: b.expr()}
+	storageCtx := &flow.StorageExecuteContext{
+		Query:  &stmt.Query{Condition: cond},
+		Schema: &metric.Schema{TagKeys: verifC10Keys},
+	}
+	lookup := &tagValuesLookup{executeCtx: storageCtx, metaDB: verifMetaDB{}}
+	verifAssert(lookup.Execute() == nil, "tag value lookup succeeds")
+	shardCtx := flow.NewShardExecuteContext(storageCtx)
+	filtering := NewSeriesFiltering(shardCtx, verifShard{}).(*seriesFiltering)
+	verifAssert(filtering.Execute() == nil, "series filtering succeeds")
+	got := shardCtx.SeriesIDsAfterFiltering
+	for _, s := range verifC10Series {
+		verifAssert(got.Contains(s.id) == verifCombine(op, a.holds(s), b.holds(s)), "a series is selected exactly when its tags satisfy the condition (atoms with the same text form)")
+	}
 	verifReach("end")
 }
 
